@@ -24,6 +24,13 @@ the right-hand call of `h : Sim b call₁ call₂` in the right-hand run and rep
 
 Nowhere does the model drop or restore `oof` (all restores are of context fields only), so the
 statement holds without exception.
+
+Part 2 (second half of the file) is fuel *adequacy*: `need D node` is a computable amount of fuel with
+which `xItem` does not run out on items of nesting depth at most `D` (`adequate_all`,
+`xItem_adequate`); `Api.Fuel.query_adequate` lifts it to `exec.query`.
+
+Everything lives in `Sqljson.Exec.Fuel` / `Sqljson.Api.Fuel`; the tactics are `fuel_call`,
+`fuel_refl`, `fuel_tail`, `fuel_auto`, `ok_leaf`.
 -/
 
 namespace Sqljson
